@@ -69,11 +69,8 @@ def r2_rank_function(ctx, sym, table):
         [c.upper() for c in cats[:3]]
     priorities = [None, 'high', 'medium', 'low', 'HIGH', 'bogus'] + list(table) + sorted(aliases)
 
-    def resolver(name):
-        try:
-            return sym.const(mod, ast.parse(name, mode='eval').body)
-        except KeyError:
-            raise KeyError(name)
+    from ..fdeval import module_resolver
+    resolver = module_resolver(sym, mod)
 
     def key_of(cat, pri):
         fd = FD(resolver=resolver)
